@@ -328,6 +328,23 @@ def solve_one(job):
     if r == z3.sat:
         return key, "sat", "z3", time.time() - t0, _model_dict(s.model())
     reason = s.reason_unknown()
+    # a time-out on a busy machine is not evidence of anything: one retry with three times the budget
+    try:
+        busy = os.getloadavg()[0] > 0.75 * (os.cpu_count() or 4)
+    except OSError:
+        busy = False
+    if busy and ("timeout" in reason or "canceled" in reason):
+        s_r = z3.Solver()
+        s_r.set("timeout", int(timeout_ms) * 3)
+        try:
+            s_r.from_string(txt)
+            r2 = s_r.check()
+            if r2 == z3.unsat:
+                return key, "unsat", "z3", time.time() - t0, None
+            if r2 == z3.sat:
+                return key, "sat", "z3", time.time() - t0, _model_dict(s_r.model())
+        except z3.Z3Exception:
+            pass
     relaxed = None
     try:
         from .core import _has_quantifier
